@@ -1,9 +1,11 @@
 use crate::report::*;
 
+pub mod c01;
 pub mod c18;
 
 pub fn jobs(prop: &str, tier: Tier) -> Option<(&'static str, Vec<Job>)> {
     Some(match prop {
+        "C01" => ("model_checking", c01::jobs(tier)),
         "C18" => ("model_checking", c18::jobs(tier)),
         _ => return None,
     })
